@@ -29,8 +29,8 @@ Bases ==
 
 Corruptions == {"none", "kind", "rename", "swap", "dtype", "iname", "idt", "emptydtype"}
 
-\* a different class that is not covered by the integer-for-float allowance of single partitions
-OtherClass(c) == CHOOSE d \in DtypeClasses \ {"i", "u"} : d # c
+\* a different class that is not covered by the integer-for-float / bool-for-object allowance of single partitions
+OtherClass(c) == CHOOSE d \in DtypeClasses \ {"i", "u", "b"} : d # c
 
 Applicable(b, c) ==
   CASE c = "none"   -> TRUE
